@@ -21,7 +21,7 @@ variable {snap : Snap} {o : Opts}
 
 theorem process_flat_dir {σ} (pre : Entry → σ → Outcome Unit × σ) (hO : FlatCf o) (st : ISt) (hst : st.iters = [])
     {x : Entry} (hd : x.dir = true) (w : σ) :
-    process snap o pre st x w = (none, { st with deferred := x :: st.deferred }, w) := by
+    process snap o pre st x w = (none, { st with deferred := (0, x) :: st.deferred }, w) := by
   unfold process
   simp only [hst, List.length_nil, hO.maxDepth, Nat.lt_irrefl, if_false, List.any_nil, Bool.false_eq_true, and_false,
     ite_self, hO.minDepth, hO.cf, hd, and_self, if_true, hO.files, hO.dirs, false_and, or_self]
@@ -50,15 +50,16 @@ theorem runIter_cf_flat {σ : Type} (pre : Entry → σ → Outcome Unit × σ) 
     exact nlc_nil pre (F' + 1) _ _ rfl rfl
   | true =>
     have hproc : process snap o pre { ({} : ISt) with started := true } (e.doFollow o.follow) w =
-        (none, { ({} : ISt) with started := true, deferred := [e] }, w) := by
+        (none, { ({} : ISt) with started := true, deferred := [(0, e)] }, w) := by
       rw [hO.follow, doFollow_false]
       exact process_flat_dir pre hO _ rfl hd w
     show runIter snap o pre e stepF (F' + 2 + 1) {} w = _
     rw [runIter_fresh_none pre stepF e (F' + 2) w w _ hproc rfl]
-    have hnext : nextE snap o pre e (F' + 2 + 1) { ({} : ISt) with started := true, deferred := [e] } w =
+    have hnext : nextE snap o pre e (F' + 2 + 1) { ({} : ISt) with started := true, deferred := [(0, e)] } w =
         (some (.ok e), { ({} : ISt) with started := true }, w) := by
       rw [nextE_started _ _ _ _ _ rfl]
-      exact nlc_def hO.cf pre (F' + 2) _ w (by simp) rfl
+      exact nlc_def (d := (0, e)) (ds := []) hO.cf pre (F' + 2)
+        { ({} : ISt) with started := true, deferred := [(0, e)] } w ⟨rfl, trivial⟩ (by simp) rfl
     rw [runIter_yield pre e stepF (F' + 2) _ _ w w _ e hnext (hstep e w)]
     apply runIter_none pre e stepF (F' + 1) _ { ({} : ISt) with started := true }
     rw [nextE_started _ _ _ _ _ rfl]
